@@ -16,6 +16,9 @@ package classifier
 //@ spec confOf(klen int, distance int) float64
 //@ ghostvar lastDist int
 //@ ghostvar lastScore float64
+//@ // C06 (clause 3): the Copyright pseudo-matches produced while tokenising the
+//@ // input (one per ignorable line, on exactly that line)
+//@ ghostvar pseudoMs Matches
 //@
 //@ func confidencePercentage
 //@   arith bv
@@ -446,6 +449,8 @@ package classifier
 //@   requires okLines(doc) && okPseudo(doc.Matches) && sortedLines(doc) && boundedLines(doc, line)
 //@   ensures okLines(doc) && okPseudo(doc.Matches) && sortedLines(doc) && boundedLines(doc, line)
 //@   ensures len(doc.Tokens) >= old(len(doc.Tokens)) && len(doc.Matches) >= old(len(doc.Matches))
+//@   ensures [pseudo-on-its-line] len(doc.Matches) == old(len(doc.Matches)) || (len(doc.Matches) == old(len(doc.Matches)) + 1 && pseudo(doc.Matches[len(doc.Matches)-1], line))
+//@   ensures [pseudo-kept] forall k int :: 0 <= k && k < old(len(doc.Matches)) ==> doc.Matches[k] == old(doc.Matches[k])
 //@   ensures (doc.Tokens == nil || fresh(doc.Tokens) || ref(doc.Tokens) == old(ref(doc.Tokens))) && (doc.Matches == nil || fresh(doc.Matches) || ref(doc.Matches) == old(ref(doc.Matches)))
 //@   ensures dict.words == old(dict.words) && dict.indices == old(dict.indices)
 //@   ensures same(doc.f, old(doc.f)) && same(doc.dict, old(doc.dict)) && same(doc.s, old(doc.s)) && same(doc.runes, old(doc.runes)) && doc.Norm == old(doc.Norm)
@@ -484,7 +489,7 @@ package classifier
 //@   loop 2 invariant (obuf == nil || fresh(obuf)) && (linebuf == nil || fresh(linebuf)) && fresh(rbuf) && len(rbuf) == 1024 && off(rbuf) == 0 && ref(obuf) != ref(rbuf)
 //@   loop 3 invariant (obuf == nil || fresh(obuf)) && fresh(rbuf) && len(rbuf) == 1024 && off(rbuf) == 0 && ref(obuf) != ref(rbuf)
 //@   loop 3 invariant forall j int :: 0 <= j && j < ite(err == nil, 1024, tgt) ==> rbuf[j] == streamByte(src, spos - idx + j)
-//@   props C10 C03 C08 C09 C04 C11
+//@   props C10 C03 C08 C09 C04 C11 C06
 //@
 //@ func NewClassifier
 //@   requires 0.0 <= threshold && threshold <= 1.0
@@ -507,6 +512,7 @@ package classifier
 //@ func extern sort.Sort
 //@   trusted
 //@   ensures typeis(data, "Matches") ==> (forall k int :: 0 <= k && k < len(unbox(data, "Matches")) ==> (exists j int :: 0 <= j && j < len(unbox(data, "Matches")) && unbox(data, "Matches")[k] == old(unbox(data, "Matches")[j])))
+//@   ensures typeis(data, "Matches") ==> (forall j int :: 0 <= j && j < len(unbox(data, "Matches")) ==> (exists k int :: 0 <= k && k < len(unbox(data, "Matches")) && unbox(data, "Matches")[k] == old(unbox(data, "Matches")[j])))
 //@
 //@ spec pseudoShape(m *Match) bool = m.Name == "Copyright" && m.MatchType == "Copyright" && m.Confidence == 1.0 && m.StartLine == m.EndLine && m.StartLine >= 1
 //@ spec okCand(m *Match, id *indexedDocument, thr float64) bool = m != nil && (pseudoShape(m) || (thr <= m.Confidence && m.Confidence <= 1.0 && 0 <= m.StartTokenIndex && m.StartTokenIndex <= m.EndTokenIndex && m.EndTokenIndex < len(id.Tokens) && m.StartLine == id.Tokens[m.StartTokenIndex].Line && m.EndLine == id.Tokens[m.EndTokenIndex].Line))
@@ -567,6 +573,8 @@ package classifier
 //@   ensures sortedConf(result0.Matches)
 //@   modifies nothing
 //@   ghostset lastScore = result0 after score
+//@   ghostset pseudoMs = result0.Matches after tokenizeStream
+//@   ensures [pseudo-reported @C06] result0.TotalInputLines > 0 ==> (forall k int :: 0 <= k && k < len(pseudoMs) ==> (exists j int :: 0 <= j && j < len(result0.Matches) && result0.Matches[j] == pseudoMs[k]))
 //@   access Match.Confidence write requires same(value, lastScore)
 //@   loop 1 invariant firstPass != nil && fresh(firstPass) && wfDoc(id) && fresh(id) && id.s == nil && id.dict == c.dict
 //@   loop 1 invariant forall l string :: (l in firstPass) ==> (l in c.docs) && firstPass[l] == c.docs[l]
@@ -587,7 +595,10 @@ package classifier
 //@   loop 7 invariant okCands(out, id, old(c.threshold)) && sortedConf(out)
 //@   loop 7 invariant forall k int, j int :: 0 <= k && k < len(out) && rangeindex < j && j < len(candidates) ==> out[k].Confidence >= candidates[j].Confidence
 //@   loop 7 invariant id != nil && okLines(id) && sortedLines(id) && len(id.Tokens) > 0
-//@   props C10 C03 C08 C09 C04 C02
+//@   loop 2 invariant same(pseudoMs, id.Matches) && len(pseudoMs) <= len(candidates) && (forall k int :: 0 <= k && k < len(pseudoMs) ==> candidates[k] == pseudoMs[k])
+//@   loop 3 invariant same(pseudoMs, id.Matches) && len(pseudoMs) <= len(candidates) && (forall k int :: 0 <= k && k < len(pseudoMs) ==> candidates[k] == pseudoMs[k])
+//@   loop 4 invariant forall k int :: 0 <= k && k < len(pseudoMs) ==> (exists j int :: 0 <= j && j < len(candidates) && candidates[j] == pseudoMs[k])
+//@   props C10 C03 C08 C09 C04 C02 C06
 //@
 //@ func (*Classifier).MatchFrom
 //@   requires wfClassifier(c) && 0.0 <= c.threshold && c.threshold <= 1.0
